@@ -19,7 +19,12 @@ META = {
             "switches between framing classes with and without strict-kex sequence reset; new dimension 'socket send() "
             "answers': per suite and direction a 2-message stream (5, 40 bytes) written to a socket that accepts at most "
             "1, 7 or 33 bytes per call (quick server->client: 7, 33), with no or exactly one call - every call index - "
-            "answering socket.timeout / EAGAIN instead. For every packet written: "
+            "answering socket.timeout / EAGAIN instead; new dimension 'asymmetric negotiation' (RFC 4253 7.1 negotiates "
+            "each direction on its own; two paramiko peers never do): the sender's direction uses each of the 72 cipher x "
+            "MAC pairs (compression alternating; thorough: all 144 suites) while the opposite direction negotiated one of "
+            "8 suites covering every MAC, cipher kind, block size and compression (thorough: each of the 144), both "
+            "directions, payload lengths 1..18, 33, 64, 256, then a re-key that swaps the two suites (with strict-kex "
+            "sequence reset) and lengths 5, 20, 33. For every packet written: "
             "length field == bytes written, 4 <= padding <= 255, encrypted span (length excluded for EtM/GCM) a "
             "multiple of max(8, block size), MAC/tag of the negotiated size verifies over the RFC's input, decoded "
             "(and inflated) payload == message sent.",
@@ -35,6 +40,20 @@ PTYPES = (94, 2, 80, 98, 255)
 SWITCH_L = (3, 20, 64, 9)
 SHORTWRITE_L = (5, 40)          # messages of the short-write streams
 SHORTWRITE_K = (1, 7, 33)       # send() accepts at most k bytes per call
+ASYM_L = tuple(range(1, 19)) + (33, 64, 256)   # every residue mod 8 and mod 16, then a few longer ones
+ASYM_L2 = (5, 20, 33)                           # after the re-key that swaps the two directions' suites
+# quick: what the *opposite* direction negotiated - every MAC (sizes 12/16/20/32/64, EtM or not), every cipher
+# kind (ctr/cbc/3des/gcm), block sizes 8 and 16, compression on/off each occur
+ASYM_OTHERS = (
+    ("aes128-ctr", "hmac-sha2-256", "none"),
+    ("aes192-cbc", "hmac-sha2-512", "zlib"),
+    ("aes256-ctr", "hmac-sha2-256-etm@openssh.com", "none"),
+    ("3des-cbc", "hmac-sha2-512-etm@openssh.com", "zlib"),
+    ("3des-cbc", "hmac-sha1", "none"),
+    ("aes128-gcm@openssh.com", "hmac-md5", "zlib"),
+    ("aes256-gcm@openssh.com", "hmac-sha1-96", "none"),
+    ("aes128-cbc", "hmac-md5-96", "zlib"),
+)
 SWITCH_REPS = (
     ("aes128-ctr", "hmac-sha2-256", "none"),
     ("aes256-cbc", "hmac-sha1-96", "zlib"),
@@ -59,7 +78,13 @@ def msgs(lengths, salt0=0):
 
 def build_script(desc):
     """desc (JSON-able) -> script.  {"part": "lengths", "suite": [c, m, z] | None} or
-    {"part": "switch", "a": [...], "b": [...], "strict": bool, "k": int}."""
+    {"part": "switch", "a": [...], "b": [...], "strict": bool, "k": int} or
+    {"part": "asym", "a": [...], "b": [...]}: the sender's direction negotiated suite a while the opposite direction
+    negotiated b (switch items carry the opposite direction's suite as 6th element); a re-key then swaps them."""
+    if desc["part"] == "asym":
+        a, b = tuple(desc["a"]), tuple(desc["b"])
+        return ([("switch",) + a + (False, list(b))] + msgs(ASYM_L, salt0=600)
+                + [("switch",) + b + (True, list(a))] + msgs(ASYM_L2, salt0=700))
     if desc["part"] == "shortwrite":
         return [("switch",) + tuple(desc["suite"]) + (False,)] + msgs(SHORTWRITE_L, salt0=500)
     if desc["part"] == "lengths":
@@ -70,6 +95,25 @@ def build_script(desc):
     m = msgs(SWITCH_L, salt0=300)
     return (m[:1] + [("switch",) + a + (strict,)] + m[1:1 + k] + [("switch",) + b + (strict,)] + m[1 + k:]
             + msgs((33,), salt0=400))
+
+
+def transmit_asym(direction, script):
+    """Sender half of a script whose switch items name what the opposite direction negotiated (6th element):
+    the sender Transport then holds different local_* and remote_* algorithms when _activate_outbound() runs
+    (P.transmit keys both directions alike).  One socket write per packet is required, as in P.transmit."""
+    link = P.Link(direction)
+    sent = []
+    for it in script:
+        if it[0] == "switch":
+            link.tx_switch((it[1], it[2], it[3]), strict=it[4], other=tuple(it[5]))
+        else:
+            data = P.payload(it[1], it[4], it[2], it[3])
+            link.send(data)
+            sent.append(data)
+    calls = link.q.take_chunks()
+    if len(calls) != len(script):
+        raise AssertionError("seam: %d socket writes for %d script items" % (len(calls), len(script)))
+    return link.q.drain(), calls, sent
 
 
 def check_script(direction, desc, acc, upto=None):
@@ -84,7 +128,10 @@ def check_script(direction, desc, acc, upto=None):
     part = desc["part"]
     send = desc.get("send") or {}
     faults = {int(k): v for k, v in (send.get("faults") or {}).items()}
-    _stream, chunks, sent = P.transmit(direction, script, send_max=send.get("max"), send_faults=faults)
+    if part == "asym":
+        _stream, chunks, sent = transmit_asym(direction, script)
+    else:
+        _stream, chunks, sent = P.transmit(direction, script, send_max=send.get("max"), send_faults=faults)
     if send:
         acc.count("send_calls", P.transmit.last["send_calls"])
         acc.count("short_writes", P.transmit.last["short_writes"])
@@ -95,6 +142,8 @@ def check_script(direction, desc, acc, upto=None):
     sent_i = 0
     bad = 0
     stale_z = False
+    opposite = None
+    negotiation = "symmetric"      # did both directions negotiate the same cipher/MAC/compression at the last switch?
     for idx, (it, wire) in enumerate(zip(script, chunks)):
         inf = dec.decode(wire)
         acc.ev()
@@ -121,7 +170,7 @@ def check_script(direction, desc, acc, upto=None):
             for pr in problems[:1]:
                 dims = {"framing": framing4(suite), "block": P.block_size(suite[0]) if suite else 8,
                         "zlib": bool(suite and suite[2] != "none"), "after-key-switch": nsw > 1,
-                        "socket-send": send_class(send)}
+                        "socket-send": send_class(send), "negotiation": negotiation}
                 if suite and framing4(suite) != "gcm":
                     dims["mac"] = suite[1]
                 P.sig_violation(acc, pr, dims, {"part": part, "suite": suite, "item": list(it), "decoded": inf.as_dict(),
@@ -132,7 +181,9 @@ def check_script(direction, desc, acc, upto=None):
         else:
             bs = P.block_size(suite[0]) if suite else 8
             acc.nt((framing4(suite), suite, len(expect) % bs if not (suite and suite[2] != "none") else "z",
-                    inf.padding_length) + ((send_class(send), send.get("max")) if send else ()))
+                    inf.padding_length) + ((send_class(send), send.get("max")) if send else ())
+                   + (("opposite-direction", framing4(opposite), P.block_size(opposite[0]), opposite[1])
+                      if negotiation == "asymmetric" else ()))
             acc.cmax("max_padding_seen", inf.padding_length)
             acc.count("packets_verified")
             if suite and suite[2] != "none":
@@ -143,6 +194,8 @@ def check_script(direction, desc, acc, upto=None):
             elif suite and (suite[2] != "none" or stale_z):
                 stale_z = True
             suite = (it[1], it[2], it[3])
+            opposite = tuple(it[5]) if len(it) > 5 else suite
+            negotiation = "symmetric" if opposite == suite else "asymmetric"
             seq = 0 if it[4] else dec.seq      # strict kex resets sequence numbers at NEWKEYS
             dec = R.decoder_for("sha1", P.K_n(nsw), P.H_n(nsw), P.SID0, direction, suite[0], suite[1],
                                 seq=seq, compress=suite[2] != "none")
@@ -212,8 +265,26 @@ def do_switch(item, acc):
                 acc.count("key_switch_scripts")
 
 
+def do_asym(item, acc):
+    """Asymmetric negotiation (RFC 4253 7.1 negotiates the two directions independently; two paramiko peers never
+    do): the packets a sender writes must be framed by what was negotiated for ITS direction, whatever cipher / MAC /
+    compression the opposite direction uses."""
+    _, a, others = item
+    for b in others:
+        if tuple(b) == tuple(a):
+            continue
+        for direction in ("c2s", "s2c"):
+            bad, chunks = check_script(direction, {"part": "asym", "a": list(a), "b": list(b)}, acc)
+            acc.count("asymmetric_negotiation_streams")
+            if not bad and a == P.all_suites()[4] and b == others[3] and direction == "s2c":
+                acc.sample({"part": "asym", "dir": direction, "sender_direction_suite": a,
+                            "opposite_direction_suite": b, "payload_lengths": list(ASYM_L),
+                            "then_rekey_swapping_the_suites_and": list(ASYM_L2),
+                            "wire_lengths_first_10": [len(c) for c in chunks[:10]]})
+
+
 def run_item(item, acc):
-    {"suite": do_suite, "switch": do_switch, "shortwrite": do_shortwrite}[item[0]](item, acc)
+    {"suite": do_suite, "switch": do_switch, "shortwrite": do_shortwrite, "asym": do_asym}[item[0]](item, acc)
 
 
 def items_for(tier):
@@ -229,6 +300,15 @@ def items_for(tier):
     for a in reps:
         for b in reps:
             items.append(("switch", a, b))
+    # sender's direction: every cipher x MAC (thorough: x compression); opposite direction: representatives of every
+    # MAC / cipher kind / block size / compression (thorough: all 144 suites)
+    if tier == "quick":
+        for i, (c, m) in enumerate((c, m) for c in P.CIPHERS for m in P.MACS):
+            items.append(("asym", (c, m, P.COMPRESSIONS[(i + i // 8) % 2]), ASYM_OTHERS))
+    else:
+        for a in P.all_suites():
+            for half in (P.all_suites()[:72], P.all_suites()[72:]):
+                items.append(("asym", a, tuple(half)))
     return items
 
 
@@ -238,7 +318,8 @@ def main(tier):
         "case = one packet written by the sender (suite, direction, payload length, position in a stateful "
         "stream), decoded by the reference receiver. nontrivial = distinct (framing class, cipher, MAC, "
         "compression, payload length mod block size ['z' when compressed], observed padding length[, socket send() "
-        "answer class and per-call byte limit]) tuples "
+        "answer class and per-call byte limit][, framing class / block size / MAC negotiated for the opposite "
+        "direction when it differs]) tuples "
         "among packets that decoded with no section-6 problem; periodicity argument: the padding formula "
         "depends on the payload length only through len mod block size, every residue is hit >= 4 times",
         ["reference decoder and KDF (vmc/refs/rfc4253.py) are written from the RFCs and use cryptography/hmac/zlib",
@@ -250,9 +331,12 @@ def main(tier):
     ck.merge(core.pmap(items, run_item))
     P.regroup(ck, {"framing": {"clear", "classic", "etm", "gcm"}, "block": {8, 16}, "zlib": {True, False},
                    "after-key-switch": {True, False}, "mac": set(P.MACS),
-                   "socket-send": {"whole", "short-write", "short-write+would-block"}})
+                   "socket-send": {"whole", "short-write", "short-write+would-block"},
+                   "negotiation": {"symmetric", "asymmetric"}})
     ck.extra["bound"] = {"suites": len(P.all_suites()) + 1, "directions": 2, "payload_lengths": len(LENGTHS if tier == "quick" else LENGTHS_T),
-                         "max_payload": max(LENGTHS), "switch_pairs": len([i for i in items if i[0] == "switch"])}
+                         "max_payload": max(LENGTHS), "switch_pairs": len([i for i in items if i[0] == "switch"]),
+                         "asymmetric_sender_suites": len([i for i in items if i[0] == "asym"]) // (1 if tier == "quick" else 2),
+                         "asymmetric_opposite_suites": len(ASYM_OTHERS) if tier == "quick" else len(P.all_suites())}
     return ck.finish()
 
 
